@@ -614,7 +614,10 @@ class DiscreteFourierTransformInverse(DiscreteFourierTransformBase):
             Result of the transform
         """
         if self.halfcomplex:
-            return np.fft.irfftn(x, axes=self.axes)
+            # The output shape must be given, otherwise an even length is
+            # assumed in the halved axis
+            s = np.take(self.range.shape, self.axes)
+            return np.fft.irfftn(x, axes=self.axes, s=s)
         else:
             if self.sign == '+':
                 return np.fft.ifftn(x, axes=self.axes)
